@@ -8,3 +8,10 @@ func rangeTable(lo, hi rune) *unicode.RangeTable {
 	}
 	return &unicode.RangeTable{R32: []unicode.Range32{{Lo: uint32(lo), Hi: uint32(hi), Stride: 1}}}
 }
+
+func tailOf(s string) string {
+	if len(s) > 24 {
+		return s[len(s)-24:]
+	}
+	return s
+}
